@@ -102,6 +102,7 @@ func cmdCheck(args []string) int {
 	tier := fs.String("tier", os.Getenv("VERIF_TIER"), "quick or thorough")
 	repo := fs.String("repo", "/repo", "repository root")
 	verif := fs.String("verif", verifDirDefault(), "verif directory (evidence, known findings)")
+	verbose := fs.Bool("v", false, "print every obligation")
 	fs.Parse(args)
 	if *tier == "" {
 		*tier = "quick"
@@ -137,6 +138,11 @@ func cmdCheck(args []string) int {
 	}
 	rep := RunRules(p, *tier, pd.Rules)
 
+	if *verbose {
+		for _, o := range rep.Obligations {
+			fmt.Printf("  [%v] %s %s @%s %s\n", o.OK, o.Rule, o.Construct, o.Pos, o.Detail)
+		}
+	}
 	known, err := loadKnownFindings(filepath.Join(*verif, "known_findings.json"))
 	if err != nil {
 		return fail("known_findings.json: " + err.Error())
